@@ -32,6 +32,56 @@ pub use crate::program::memory::MemoryAccessType;
 
 mod dependency_queue;
 
+/// Verification hook (guarded, add-only): drives the crate-private [`DependencyQueue`] with an
+/// explicit access sequence so that its reported dependencies can be compared with a proved model.
+#[cfg(rigetti_quil_rs_verif)]
+pub mod verif {
+    use super::dependency_queue::DependencyQueue;
+    use super::{InstructionFrameInteraction, MemoryAccessType, ScheduledGraphNode};
+
+    /// Feed `accesses` (access `i` performed by node `InstructionIndex(i)`) to a fresh memory
+    /// queue.  Returns the dependencies reported at each step and the pending set at the end.
+    #[allow(clippy::type_complexity)]
+    pub fn memory_queue_trace(
+        accesses: &[MemoryAccessType],
+    ) -> (
+        Vec<Vec<(MemoryAccessType, ScheduledGraphNode)>>,
+        Vec<(MemoryAccessType, ScheduledGraphNode)>,
+    ) {
+        let mut queue: DependencyQueue<MemoryAccessType> = DependencyQueue::new();
+        let mut steps = Vec::new();
+        for (index, access) in accesses.iter().enumerate() {
+            let deps = queue.record_access_and_get_dependencies(
+                ScheduledGraphNode::InstructionIndex(index),
+                *access,
+            );
+            steps.push(deps.into_iter().map(|d| (d.access_type, d.node_id)).collect());
+        }
+        let pending = queue
+            .into_pending_dependencies()
+            .into_iter()
+            .map(|d| (d.access_type, d.node_id))
+            .collect();
+        (steps, pending)
+    }
+
+    /// Same as [`memory_queue_trace`] for a frame queue (implicit initial writer: block start).
+    pub fn frame_queue_trace(
+        accesses: &[InstructionFrameInteraction],
+    ) -> (Vec<Vec<ScheduledGraphNode>>, Vec<ScheduledGraphNode>) {
+        let mut queue: DependencyQueue<InstructionFrameInteraction> = DependencyQueue::new();
+        let mut steps = Vec::new();
+        for (index, access) in accesses.iter().enumerate() {
+            let deps = queue.record_access_and_get_dependencies(
+                ScheduledGraphNode::InstructionIndex(index),
+                *access,
+            );
+            steps.push(deps.into_iter().collect());
+        }
+        (steps, queue.into_pending_dependencies().into_iter().collect())
+    }
+}
+
 #[derive(Debug, Clone, Copy)]
 pub enum ScheduleErrorVariant {
     DuplicateLabel,
